@@ -1497,3 +1497,131 @@ recv_decision_harness!(t03_recv_decision_du_tcp_v4, 1, 2, false);
 recv_decision_harness!(t03_recv_decision_du_tcp_v6, 1, 2, true);
 recv_decision_harness!(t03_recv_decision_tcp_reply_v6, 3, 2, true);
 recv_decision_harness!(t03_recv_decision_tcp_refused_v4, 4, 2, false);
+
+// =========================================================================== C01 / C03: recv_response end to end
+
+/// The whole receive step `recv_response` (decision AND effect composed by the real code) at a
+/// concrete window position: the network hands over an ICMP-payload response (kind symbolic among
+/// TimeExceeded / DestinationUnreachable / EchoReply; identifier, code, responder, receive time
+/// symbolic) naming the sequence of slot j, which holds an Awaited probe.  The probe is completed
+/// iff the response carries this tracer's identifier (or 0); otherwise every slot and the whole
+/// bookkeeping are unchanged.
+fn recv_response_e2e(rs: u16, size: u16, j: u16, v6: bool) {
+    let mut cfg = any_strategy_config(v6);
+    cfg.protocol = Protocol::Icmp;
+    kani::assume(accepted(&cfg));
+    let mut st = any_state_at(cfg, rs, size);
+    kani::assume(inv_scalar(&st));
+    let awaited = any_probe_at(&st, j);
+    kani::assume(awaited.ttl.0 >= cfg.first_ttl.0 && awaited.ttl.0 < st.ttl.0);
+    st.buffer[usize::from(j)] = ProbeStatus::Awaited(awaited.clone());
+    let ident: u16 = kani::any();
+    let (recv, _, _) = any_time();
+    let addr = any_ip(v6);
+    let code: u8 = kani::any();
+    let kind: u8 = kani::any();
+    kani::assume(kind < 3);
+    let data = ResponseData::new(recv, addr, ProtocolResponse::Icmp(IcmpProtocolResponse::new(ident, rs + j, None)));
+    let resp = match kind {
+        0 => Response::TimeExceeded(data, IcmpPacketCode(code), None),
+        1 => Response::DestinationUnreachable(data, IcmpPacketCode(code), None),
+        _ => Response::EchoReply(data, IcmpPacketCode(code)),
+    };
+    let mut net = SymNet::new([SendOutcome::Ok, SendOutcome::Ok, SendOutcome::Ok]);
+    net.recv = Some(Ok(Some(resp)));
+    let strategy = Strategy::new(&cfg, noop_publish);
+    let (tf0, mr0, tt0) = (st.target_found, st.max_received_ttl, st.target_ttl);
+    let res = strategy.recv_response(&mut net, &mut st);
+    assert!(res.is_ok() && net.recv_calls == 1);
+    let ours = ident == cfg.trace_identifier.0 || ident == 0;
+    match &st.buffer[usize::from(j)] {
+        ProbeStatus::Complete(c) => {
+            assert!(ours, "a response of another tracer never completes a probe");
+            assert!(c.sequence == awaited.sequence && c.ttl == awaited.ttl && c.round == awaited.round && c.sent == awaited.sent);
+            assert!(ip_eq(c.host, addr) && c.received == recv);
+            let want_kind = match kind {
+                0 => IcmpPacketType::TimeExceeded(IcmpPacketCode(code)),
+                1 => IcmpPacketType::Unreachable(IcmpPacketCode(code)),
+                _ => IcmpPacketType::EchoReply(IcmpPacketCode(code)),
+            };
+            assert!(c.icmp_packet_type == want_kind);
+            let is_target = kind == 2 || ip_eq(addr, cfg.target_addr);
+            assert!(st.target_found == (tf0 || is_target));
+            assert!(st.received_time == Some(recv));
+        }
+        ProbeStatus::Awaited(a) => {
+            assert!(!ours, "a genuine response to an awaited probe of this round completes it");
+            assert!(probe_eq(a, &awaited));
+            assert!(st.target_found == tf0 && st.max_received_ttl == mr0 && st.target_ttl == tt0 && st.received_time.is_none());
+        }
+        _ => assert!(false, "slot corrupted"),
+    }
+    kani::cover!(ours && kind == 2, "echo reply accepted");
+    kani::cover!(!ours, "foreign identifier rejected");
+    std::mem::forget(st);
+    std::mem::forget(net);
+    std::mem::forget(res);
+}
+
+macro_rules! recv_response_e2e_harness {
+    ($name:ident, $rs:expr, $size:expr, $j:expr, $v6:expr) => {
+        #[kani::proof]
+        #[kani::unwind(2)]
+        fn $name() {
+            recv_response_e2e($rs, $size, $j, $v6);
+        }
+    };
+}
+// (not instantiated: the composed step on an AWAITED slot needs unwind >= 17 for the address
+// comparison inside StrategyResponse::from and unwind 2 for the slot clone at the same time, and
+// exceeds 17 GB / 12 min; the accepted path is decided as decision o effect, see DESIGN 1.4)
+
+/// The same composed step for a response naming a sequence OUTSIDE the current window (just below
+/// the round's first sequence = the previous round's last, 0, just beyond the 512-slot window,
+/// 65535): nothing changes.  (Concrete sequences: with a symbolic one CBMC explores the slot access
+/// at a symbolic index although `in_round` forbids it; ALL sequences are covered by the decision
+/// harnesses c03_recv_decision_* and by c07_window_predicates.)
+fn recv_response_out_of_window(rs: u16, size: u16, seq: u16) {
+    let mut cfg = any_strategy_config(false);
+    cfg.protocol = Protocol::Icmp;
+    kani::assume(accepted(&cfg));
+    let mut st = any_state_at(cfg, rs, size);
+    kani::assume(inv_scalar(&st));
+    let obs = any_probe_at(&st, 0);
+    st.buffer[0] = ProbeStatus::Awaited(obs.clone());
+    let (recv, _, _) = any_time();
+    let data = ResponseData::new(recv, any_ip(false), ProtocolResponse::Icmp(IcmpProtocolResponse::new(cfg.trace_identifier.0, seq, None)));
+    let mut net = SymNet::new([SendOutcome::Ok, SendOutcome::Ok, SendOutcome::Ok]);
+    net.recv = Some(Ok(Some(Response::EchoReply(data, IcmpPacketCode(0)))));
+    let strategy = Strategy::new(&cfg, noop_publish);
+    let (tf0, mr0, tt0) = (st.target_found, st.max_received_ttl, st.target_ttl);
+    let res = strategy.recv_response(&mut net, &mut st);
+    assert!(res.is_ok());
+    assert!(awaited_is(&st.buffer[0], &obs), "a late or never-valid sequence changes no probe");
+    assert!(st.target_found == tf0 && st.max_received_ttl == mr0 && st.target_ttl == tt0 && st.received_time.is_none());
+    kani::cover!(true, "reachable");
+    std::mem::forget(st);
+    std::mem::forget(net);
+    std::mem::forget(res);
+}
+
+#[kani::proof]
+#[kani::unwind(2)]
+fn c03_recv_response_previous_round_ignored() {
+    recv_response_out_of_window(33434, 3, 33433);
+}
+#[kani::proof]
+#[kani::unwind(2)]
+fn t03_recv_response_sequence_zero_ignored() {
+    recv_response_out_of_window(33434, 3, 0);
+}
+#[kani::proof]
+#[kani::unwind(2)]
+fn c03_recv_response_beyond_window_ignored() {
+    recv_response_out_of_window(33434, 3, 33434 + 512);
+}
+#[kani::proof]
+#[kani::unwind(2)]
+fn t03_recv_response_sequence_max_ignored() {
+    recv_response_out_of_window(64000, 100, 65535);
+}
